@@ -1,5 +1,5 @@
 """C17 - File / TextFile: only what asl itself computes (src/TextFile.cpp); the OS round trip is not decidable here"""
-from vf.core import Unit, Cut
+from vf.core import Unit, Cut, do_while_rule
 from vf import replay
 
 TF = 'src/TextFile.cpp'
@@ -134,6 +134,71 @@ void vf_harness(void) { File* f; File_close(f); VF_CANARY(); }
     functions=['File::close'], trusted=['fclose (libc)'],
 )
 UNITS += [file_close]
+
+# ---- Directory::copy (POSIX branch): the block loop copies the whole file - it may stop with `true` only after a short read (end of the file)
+DR = 'src/Directory.cpp'
+dir_copy = Unit(
+    'Directory_copy_loop', 'C17',
+    cuts=[Cut('cp', DR, r'^bool Directory::copy\(const String& from, const String& to\)\s*$', nth=1, count=2,
+              rules=[(r'File src\(from, File::READ\);\s*if\(!src\)\s*return false;', '', 1), (r'String topath = to;.*?if\(!dst\)\s*return false;', '', 1),
+                     (r'Array<byte> buffer\((\d+)\);', r'byte vf_store[\1]; byte* buffer = vf_store; int buffer_len = \1;   /* an Array handle is one pointer */', None),
+                     (r'buffer\.data\(\)', 'buffer', None), (r'buffer\.length\(\)', 'buffer_len', None),
+                     (r'src\.read\(([^,]+), ([^;]+)\);', r'SRC_READ((byte*)(\1), (int)(\2));', 1), (r'dst\.write\(([^,]+), ([^;]+)\);', r'DST_WRITE((const byte*)(\1), \2);', 1),
+                     (r'return false;', '{ g_ret = 0; return; }', None), (r'return true;', '{ g_ret = 1; return; }', 1), do_while_rule],
+              loops=[(r'while \(vf_first', 0, '''
+  __CPROVER_assigns(vf_first, n, g_left, g_written, g_k, g_ret)
+  __CPROVER_loop_invariant((vf_first == 0 || vf_first == 1) && 0 <= g_written && g_written <= g_size && 0 <= g_left && g_left <= g_size && g_written + g_left == g_size && g_ret == -1)
+  /* the request size of the last read is what the continuation test compares with: "a full block was read" */
+  __CPROVER_loop_invariant(vf_first || (0 <= n && n <= g_k && (n < g_k ==> g_left == 0) && g_k == (int)sizeof(buffer)))
+  __CPROVER_decreases(2 * g_left + vf_first + ((!vf_first && n == (int)sizeof(buffer)) ? 1 : 0))
+''')])],
+    text=PRE + r'''
+long long g_size, g_left, g_written; int g_k, g_ret;
+/* File::read(p, k) = fread: fills the k bytes unless the file ends first (then fewer, possibly 0); -1 on error */
+static int SRC_READ(byte* p, int k) { __CPROVER_assert(k >= 1 && __CPROVER_w_ok(p, k), "read request fits the buffer"); g_k = k; if (nondet_bool()) return -1; int r = g_left < k ? (int)g_left : k; g_left -= r; return r; }
+static int DST_WRITE(const byte* p, int n) { __CPROVER_assert(n >= 0 && (n == 0 || __CPROVER_r_ok(p, n)), "write of the bytes just read"); if (nondet_bool()) return n > 0 ? n - 1 : -1; g_written += n; return n; }
+void Directory_copy(void)
+__CPROVER_requires(0 <= g_size && g_size <= 1000000000000LL && g_left == g_size && g_written == 0 && g_ret == -1)
+/* `true` means the destination received every byte of the source, for files of ANY size (below, at and above the block size) */
+__CPROVER_ensures(g_ret == 1 ==> (g_left == 0 && g_written == g_size))
+__CPROVER_ensures(g_ret == 0 || g_ret == 1)
+__CPROVER_assigns(g_left, g_written, g_k, g_ret)
+@@cp@@
+void vf_harness(void) { Directory_copy(); VF_CANARY(); }
+''',
+    entry='Directory_copy',
+    desc='Directory::copy block loop for files of ANY size: every read request fits the buffer, and the loop reports success only after a short read (end of file) with every byte written - so files larger than one block are copied whole',
+    functions=['Directory::copy (POSIX)'], trusted=['File::read = fread (full request unless the file ends), File::write returns the count written'],
+)
+UNITS += [dir_copy]
+
+# ---- TextFile::text(): byte-order-mark probe.  Whatever the first bytes are, the text that is read afterwards starts at offset 3 exactly when the file begins with the
+# UTF-8 BOM EF BB BF, and at offset 0 otherwise (UTF-16 files take their own branches: units TextFile_text_utf16*_turn)
+text_bom = Unit(
+    'TextFile_text_bom_probe', 'C17',
+    cuts=[Cut('tb', TF, r'^String TextFile::text\(\)\s*$',
+              rules=[(r'\(int\)\(size\(\) & 0x7fffffff\)', '(int)(g_size & 0x7fffffff)', 1), (r'String text;\s*if \(!_file && !open\(READ\)\) \{\s*return text;\s*\}', '', 1),
+                     (r'\{\s*Array<wchar_t> a;.*?return text;\s*\}', '{ g_utf16 = 1; return; }', 2),
+                     (r'read\(head, 2\);', 'READ_HEAD(head, 2);', 1), (r'read<byte>\(\)', 'READ_BYTE()', None),
+                     (r'seek\(([^,()]+), HERE\);', r'g_pos += (\1);', None), (r'seek\(([^,()]+)\);', r'g_pos = (\1);', None),
+                     (r'text\.resize\(n, false, false\);.*?return text;', 'g_start = g_pos; return;', 1)])],
+    text=PRE + r'''
+long long g_size; int g_pos, g_start, g_utf16; byte g_f[3];
+static void READ_HEAD(byte* h, int k) { __CPROVER_assert(g_pos == 0 && k <= g_size, "probe reads the first bytes of the file"); for (int i = 0; i < k && i < 3; i++) h[i] = g_f[i]; g_pos += k; }
+static byte READ_BYTE(void) { __CPROVER_assert(g_pos < g_size && g_pos < 3, "a byte inside the file"); return g_f[g_pos++]; }
+void text_probe(void)
+__CPROVER_requires(0 <= g_size && g_size <= 2000000000 && g_pos == 0 && g_start == -1 && g_utf16 == 0)
+__CPROVER_ensures(!g_utf16 ==> g_start == ((g_size >= 3 && g_f[0] == 0xef && g_f[1] == 0xbb && g_f[2] == 0xbf) ? 3 : 0))
+__CPROVER_ensures(g_utf16 ==> (g_size >= 2 && ((g_f[0] == 0xff && g_f[1] == 0xfe) || (g_f[0] == 0xfe && g_f[1] == 0xff))))
+__CPROVER_assigns(g_pos, g_start, g_utf16)
+@@tb@@
+void vf_harness(void) { text_probe(); VF_CANARY(); }
+''',
+    entry='text_probe', unwind=5,
+    desc='TextFile::text() BOM probe for EVERY file size and first three bytes: the bytes returned start right after a UTF-8 BOM and at the first byte of the file otherwise (also when the file starts EF BB xx)',
+    functions=['TextFile::text (BOM probe)'], trusted=['File::read / seek move the file position as fread / fseek do'],
+)
+UNITS += [text_bom]
 
 # replay: turn units have no direct native input; the driver's battery (lines of every length 0..1100 with LF / CRLF / lone CR / no final newline, byte round trips around
 # 255 and 65536, write - size() - write - close - append histories on one object, the three BOM encodings) runs on the real library instead
